@@ -298,6 +298,15 @@ class Evaluator:
             return ("exc", name)
         vals = [self.ev(a, loc) for a in args]
         try:
+            if name == "next" and 1 <= len(vals) <= 2:
+                # the evaluator materialises generators as lists: next() of one is its first element (or the default)
+                it_ = iter(vals[0])
+                try:
+                    return next(it_)
+                except StopIteration:
+                    if len(vals) == 2:
+                        return vals[1]
+                    raise Crash("StopIteration", show(t))
             if name == "len":
                 return len(vals[0])
             if name == "min":
